@@ -156,12 +156,15 @@ func (p *Parser) ParseProgram() *ast.Statements {
 	for p.curToken.Type() != token.EOF && p.curToken.Type() != token.EOL {
 		stmt := p.parseStatement()
 		if stmt == nil {
-			return program
+			break
 		}
 		program.Statements = append(program.Statements, stmt)
 		p.nextToken()
 	}
-
+	if p.l.OpenString() && (p.curTokenIs(token.EOL) || p.peekTokenIs(token.EOL)) {
+		// line mode and the line ends inside a string, e.g. a line starting with "abc: need the rest.
+		p.continuationNeeded = true
+	}
 	return program
 }
 
@@ -302,6 +305,11 @@ func (p *Parser) parseExpression(precedence ast.Priority) ast.Node {
 	}
 	prefix := p.prefixParseFns[p.curToken.Type()]
 	if prefix == nil {
+		if p.curTokenIs(token.RPAREN) && p.peekTokenIs(token.EOL) {
+			// `()` at the end of a line: could be the start of `() => ...`
+			p.continuationNeeded = true
+			return nil
+		}
 		if !p.peekTokenIs(token.LAMBDA) { // To make () => { ... } without errors.
 			p.noPrefixParseFnError(p.curToken)
 		}
